@@ -35,6 +35,12 @@ static USE_AVX2: LazyLock<bool> = LazyLock::new(|| {
     is_x86_feature_detected!("avx2") && !NO_VALUES.contains(&use_avx2.as_str())
 });
 
+/// Returns whether the AVX2 `contains` path is active in this process.
+#[cfg(all(feature = "verif-hooks", any(target_arch = "x86", target_arch = "x86_64")))]
+pub fn verif_simd_active() -> bool {
+    *USE_AVX2
+}
+
 #[cfg(target_arch = "wasm32")]
 static USE_SIMD128: LazyLock<bool> = LazyLock::new(|| {
     use std::env;
@@ -547,10 +553,14 @@ impl Expr for ComparisonExpr {
                 let bytes: Box<[u8]> = bytes.into();
 
                 if bytes.is_empty() {
+                    #[cfg(feature = "verif-hooks")]
+                    crate::verif::note_searcher(crate::verif::SearcherKind::Empty, 0, 0);
                     return search!(EmptySearcher);
                 }
 
                 if let [byte] = *bytes {
+                    #[cfg(feature = "verif-hooks")]
+                    crate::verif::note_searcher(crate::verif::SearcherKind::Memchr, 1, 0);
                     return search!(MemchrSearcher::new(byte));
                 }
 
@@ -592,6 +602,18 @@ impl Expr for ComparisonExpr {
                     }
 
                     let position = rng().random_range(1..bytes.len());
+                    #[cfg(feature = "verif-hooks")]
+                    let position = crate::verif::anchor_override(position, bytes.len());
+                    #[cfg(feature = "verif-hooks")]
+                    crate::verif::note_searcher(
+                        if bytes.len() <= 16 {
+                            crate::verif::SearcherKind::Avx2Array
+                        } else {
+                            crate::verif::SearcherKind::Avx2Boxed
+                        },
+                        bytes.len(),
+                        position,
+                    );
                     return unsafe {
                         match bytes.len() {
                             2 => search!(ArraySearcher(Avx2Searcher::with_position(
@@ -683,6 +705,8 @@ impl Expr for ComparisonExpr {
                     };
                 }
 
+                #[cfg(feature = "verif-hooks")]
+                crate::verif::note_searcher(crate::verif::SearcherKind::Memmem, bytes.len(), 0);
                 search!(MemmemSearcher::new(bytes))
             }
             ComparisonOpExpr::Matches(regex) => lhs.compile_with(compiler, false, regex),
